@@ -188,6 +188,27 @@ service AllKinds {
 }
 
 
+def same_output(a, b) -> bool:
+    """Two outputs (bytes, JSON text, dict, snapshot) are the same; in JSON texts and dicts a number is a number: a
+    configuration that coerces the int a caller put into a float field (2 -> 2.0) emits the same JSON value."""
+    import json as _json
+
+    if isinstance(a, str) and isinstance(b, str) and a != b:
+        try:
+            return same_output(_json.loads(a), _json.loads(b))
+        except ValueError:
+            return False
+    if isinstance(a, bool) or isinstance(b, bool):
+        return type(a) is type(b) and a == b
+    if isinstance(a, (int, float)) and isinstance(b, (int, float)):
+        return a == b or (a != a and b != b)
+    if isinstance(a, dict) and isinstance(b, dict):
+        return a.keys() == b.keys() and all(same_output(v, b[k]) for k, v in a.items())
+    if isinstance(a, (list, tuple)) and isinstance(b, (list, tuple)):
+        return len(a) == len(b) and all(same_output(x, y) for x, y in zip(a, b))
+    return type(a) is type(b) and repr(a) == repr(b)
+
+
 def targets(ctx):
     def run_variants(files, vseeds, want_features=None):
         fails = []
@@ -268,7 +289,7 @@ def targets(ctx):
                         continue
                     if b1 != b0:
                         fails.append(Failure("variant_bytes_differ", f"{vname}|variant_bytes_differ|{_culprit_kind2(adapter, cbm0[mk], cbm1[mk], mi, tree, 'bytes')}", f"{full} tree={tree!r:.300}: {b0.hex()[:120]} vs {b1.hex()[:120]}"))
-                    if j1 != j0:
+                    if not same_output(j0, j1):
                         fails.append(Failure("variant_json_differs", f"{vname}|variant_json_differs|{_culprit_kind2(adapter, cbm0[mk], cbm1[mk], mi, tree, 'json')}", f"{full} tree={tree!r:.300}: {j0[:160]} vs {j1[:160]}"))
             return fails, results
         finally:
@@ -403,7 +424,7 @@ def targets(ctx):
                 b = observe(c1, t)
             except Guarded as g:
                 return [(f"variant_raises_{g.where}_{type(g.exc).__name__}", str(g)[:300])]
-            return [(f"variant_{k}_differs", f"default={a[k]!r:.200} variant={b[k]!r:.200}") for k in a if repr(a[k]) != repr(b[k])]
+            return [(f"variant_{k}_differs", f"default={a[k]!r:.200} variant={b[k]!r:.200}") for k in a if not same_output(a[k], b[k])]
 
         found = diff(tree)
         if found is None:
